@@ -265,30 +265,32 @@ impl<'l, Data> LoopHandle<'l, Data> {
 
     /// Removes this source from the event loop.
     pub fn remove(&self, token: RegistrationToken) {
-        if let Ok(&mut SourceEntry {
-            token: entry_token,
-            ref mut source,
-        }) = self.inner.sources.borrow_mut().get_mut(token.inner)
-        {
-            if let Some(source) = source.take() {
-                trace!(source = entry_token.get_id(), "Removing source");
-                let unregistered = source.unregister(
-                    &mut self.inner.poll.borrow_mut(),
-                    &mut self
-                        .inner
-                        .sources_with_additional_lifecycle_events
-                        .borrow_mut(),
-                    token,
-                );
-                if let Err(e) = unregistered {
-                    warn!("Failed to unregister source from the polling system: {e:?}");
-                    // The source is gone whatever the polling system said: it must not stay
-                    // tracked for lifecycle events (its slot is vacant from now on).
-                    self.inner
-                        .sources_with_additional_lifecycle_events
-                        .borrow_mut()
-                        .unregister(token);
-                }
+        // Take the source out of its slot and release the list before going any further:
+        // unregistering and dropping the source runs foreign code that may come back to the
+        // loop (a future dropped with its executor may own an `Async` adapter, which frees
+        // its own slot when dropped).
+        let source = match self.inner.sources.borrow_mut().get_mut(token.inner) {
+            Ok(entry) => entry.source.take(),
+            Err(_) => None,
+        };
+        if let Some(source) = source {
+            trace!(source = token.inner.get_id(), "Removing source");
+            let unregistered = source.unregister(
+                &mut self.inner.poll.borrow_mut(),
+                &mut self
+                    .inner
+                    .sources_with_additional_lifecycle_events
+                    .borrow_mut(),
+                token,
+            );
+            if let Err(e) = unregistered {
+                warn!("Failed to unregister source from the polling system: {e:?}");
+                // The source is gone whatever the polling system said: it must not stay
+                // tracked for lifecycle events (its slot is vacant from now on).
+                self.inner
+                    .sources_with_additional_lifecycle_events
+                    .borrow_mut()
+                    .unregister(token);
             }
         }
     }
